@@ -3,7 +3,7 @@ import numpy as np
 
 from vmon.oracle import geometry as G
 
-CLASSES = ["single", "pair_hetero", "pair_homo", "collinear3", "planar_d3h", "pyramid_c3v", "twofold", "asym4", "asym5", "asym6", "chiral4", "chiral5", "planar_mirror_pair"]
+CLASSES = ["single", "pair_hetero", "pair_homo", "collinear3", "planar_d3h", "pyramid_c3v", "twofold", "asym4", "asym5", "asym6", "chiral4", "chiral5", "planar_mirror_pair", "flat_polygon"]
 
 
 def _min_dist(pos):
@@ -84,6 +84,26 @@ def make(rng, cls):
         if rng.integers(3) == 0:       # the pair listed first
             els = els[m:] + els[:m]
             pos = np.vstack([pair, ring])
+    elif cls == "flat_polygon":
+        # a planar, asymmetric molecule as an editor exports it: lying exactly in a coordinate plane (z = const, or x / y),
+        # first atom at one end of its longest distance
+        m = int(rng.integers(3, 6))
+        for _ in range(500):
+            ang = np.sort(rng.uniform(0, 2 * np.pi, m))
+            rad = rng.uniform(1.0, 2.0, m)
+            flat = np.stack([rad * np.cos(ang), rad * np.sin(ang)], axis=1)
+            D = np.sqrt(((flat[:, None, :] - flat[None, :, :]) ** 2).sum(-1))
+            dd = np.sort(D[np.triu_indices(m, 1)])
+            if dd.min() >= 1.0 and np.diff(dd).min() > 0.06:
+                break
+        i, j = [int(x) for x in np.unravel_index(np.argmax(D), D.shape)]
+        order = [i] + [k for k in range(m) if k not in (i, j)] + [j]
+        flat = flat[order]
+        els = ["C", "N", "O", "S", "P"][:m]
+        plane = int(rng.integers(3))
+        pos = np.insert(flat, plane, float(np.round(rng.uniform(-2, 2), 1)), axis=1)
+        pos[:, [a for a in range(3) if a != plane]] += np.round(rng.uniform(-2, 2, 2), 1)
+        return {"cls": cls, "elements": els, "positions": pos, "chiral": False, "continuous_symmetry": None, "frame": "coordinate_plane_%s" % "xyz"[plane]}
     elif cls == "close_pair":
         # a pattern with two same-element atoms closer to each other than the larger tolerances (0.2, 0.5): one structure
         # atom then satisfies every distance test for both of them - the search must still list distinct atoms
